@@ -41,6 +41,9 @@ def gen_universe(rng: random.Random, **opts: Any) -> dict:
     """Draw the explicit template parameters of a universe (JSON-serialisable descriptor)."""
     n_coll = opts.get("n_collections") or rng.choice([1, 1, 2, 2, 3])
     names = rng.sample(COLLECTION_NAMES, n_coll)
+    if opts.get("s_siblings") and n_coll >= 2:
+        # sibling collections whose names differ only by a trailing "s" (path-template heuristics must not confuse them)
+        names[1] = names[0][:-1] if names[0].endswith("s") else names[0] + "s"
     collections = []
     want_links = opts.get("links", True)
     for name in names:
@@ -98,6 +101,8 @@ def gen_universe(rng: random.Random, **opts: Any) -> dict:
                 links.append(
                     {"from": "read", "to": "delete", "key": "200", "by": "operationId", "params": {"id": "$response.body#/id"}}
                 )
+        if opts.get("link_repertoire"):
+            links = gen_link_repertoire(rng, kinds, props, required, qparams, id_type, opts)
         coll = {
             "name": name,
             "id_type": id_type,
@@ -120,14 +125,63 @@ def gen_universe(rng: random.Random, **opts: Any) -> dict:
             "path_level": None,
             "examples": [],
             "upper_methods": rng.random() < opts.get("p_upper_methods", 0.0),
+            "nested": ("create" in kinds and rng.random() < opts.get("p_nested", 0.0)),
         }
         collections.append(coll)
+    if opts.get("s_siblings") and len(collections) >= 2:
+        a, b = collections[0], collections[1]
+        if "create" in a["kinds"] and "delete" in b["kinds"] and "delete" not in b["no_opid"] and a["id_type"] == b["id_type"]:
+            # cross-collection link: POST /tasks -> DELETE /task/{id} (a different resource with the same id value)
+            a["links"].append({"from": "create", "to": "delete", "to_collection": b["name"], "key": "201", "by": "operationId",
+                               "params": {"id": "$response.body#/id"}})
     return {
         "collections": collections,
         "layout": opts.get("layout", "single"),
         "format": opts.get("format", "json"),
         "security": opts.get("security"),
     }
+
+
+def gen_link_repertoire(rng, kinds, props, required, qparams, id_type, opts) -> list[dict]:
+    """Links over the full expression repertoire of DESIGN §4 (only declared scalar parameters / JSON bodies)."""
+    links: list[dict] = []
+    id_exprs = ["$response.body#/id", "$response.header.X-Id", "{$response.body#/id}", "$response.body#/id"]
+    keys_2xx = lambda exact: rng.choice([exact, exact, "2XX", "default"])  # noqa: E731
+    pname = lambda: rng.choice(["id", "id", "path.id"])  # noqa: E731
+    prop_names = [p[0] for p in props]
+    if "create" in kinds:
+        for target in ("read", "update", "delete"):
+            if target in kinds and rng.random() < 0.8:
+                link = {"from": "create", "to": target, "key": keys_2xx("201"), "by": rng.choice(["operationId", "operationRef"]),
+                        "params": {pname(): rng.choice(id_exprs)}}
+                if target == "update" and rng.random() < 0.6:
+                    body = {}
+                    for pn in required:
+                        body[pn] = rng.choice([f"$response.body#/{pn}", f"$request.body#/{pn}"])
+                    link["requestBody"] = body
+                    link["merge_body"] = rng.random() < 0.5
+                links.append(link)
+        if "list" in kinds and any(q["name"] == "q" for q in qparams) and "name" in prop_names and rng.random() < 0.7:
+            links.append({"from": "create", "to": "list", "key": keys_2xx("201"), "by": "operationId", "params": {"query.q": "$request.body#/name"}})
+    if "update" in kinds and "read" in kinds and rng.random() < 0.6:
+        links.append({"from": "update", "to": "read", "key": rng.choice(["200", "2XX"]), "by": "operationId", "params": {"id": "$request.path.id"}})
+    if "delete" in kinds and "read" in kinds and rng.random() < 0.6:
+        links.append({"from": "delete", "to": "read", "key": rng.choice(["204", "2XX", "default"]), "by": "operationId", "params": {"id": "$request.path.id"}})
+    if "read" in kinds and "delete" in kinds and rng.random() < 0.5:
+        links.append({"from": "read", "to": "delete", "key": "200", "by": "operationRef", "params": {"id": "$response.body#/id"}})
+    if "read" in kinds and "update" in kinds and rng.random() < 0.5:
+        body = {pn: rng.choice([f"$response.body#/{pn}", {"string": "lit", "integer": 3, "boolean": True}.get(dict(props)[pn].get("type"), "lit")]) for pn in required}
+        links.append({"from": "read", "to": "update", "key": "200", "by": "operationId", "params": {"id": "$response.body#/id"},
+                      "requestBody": body, "merge_body": rng.random() < 0.5})
+    if "list" in kinds and "read" in kinds and rng.random() < 0.5:
+        links.append({"from": "list", "to": "read", "key": "200", "by": "operationId", "params": {"id": "$response.body#/0/id"}})
+    bad = opts.get("malformed_link")
+    if bad and links:
+        victim = rng.choice(links)
+        k = next(iter(victim["params"]))
+        victim["params"][k] = bad
+        victim["malformed"] = True
+    return links
 
 
 # ---------------------------------------------------------------------------------------------
@@ -287,9 +341,13 @@ class Universe:
                     responses=list(responses),
                 )
                 self.ops[key].secured = secured
+            if coll.get("nested"):
+                self._build_nested(coll, paths, id_schema, err)
             # links
             for i, link in enumerate(coll["links"]):
                 src_kind, dst_kind = link["from"], link["to"]
+                if link.get("to_collection"):
+                    continue  # cross-collection links are added once every collection exists
                 src_path = coll_path if src_kind in ("create", "list") else item_path
                 dst_path = coll_path if dst_kind in ("create", "list") else item_path
                 src = paths[src_path][self._mkey(coll, src_kind)]
@@ -313,6 +371,20 @@ class Universe:
                 )
                 if link["key"] not in self.ops[src_key].responses:
                     self.ops[src_key].responses.append(link["key"])
+        for coll in desc["collections"]:
+            for i, link in enumerate(coll["links"]):
+                other = link.get("to_collection")
+                if not other:
+                    continue
+                src_kind, dst_kind = link["from"], link["to"]
+                src_path = f"/{coll['name']}" if src_kind in ("create", "list") else f"/{coll['name']}/{{id}}"
+                dst_path = f"/{other}" if dst_kind in ("create", "list") else f"/{other}/{{id}}"
+                src = paths[src_path][self._mkey(coll, src_kind)]
+                lname = f"{dst_kind}{other.capitalize()}From{coll['name'].capitalize()}{i}"
+                resp = src["responses"].setdefault(link["key"], {"description": "via link"})
+                resp.setdefault("links", {})[lname] = {"operationId": f"{dst_kind}{other.capitalize()}", "parameters": dict(link["params"])}
+                src_key = f"{KIND_METHOD[src_kind].upper()} {src_path}"
+                self.ops[src_key].links.append({**link, "name": lname, "target": f"{KIND_METHOD[dst_kind].upper()} {dst_path}"})
         sec = desc.get("security")
         if sec:
             scheme = {
@@ -329,6 +401,56 @@ class Universe:
             "paths": paths,
             "components": components,
         }
+
+    def _build_nested(self, coll: dict, paths: dict, id_schema: dict, err: dict) -> None:
+        """/{name}/{id}/notes and /{name}/{id}/notes/{nid}: a nested resource that dies with its parent."""
+        name = coll["name"]
+        Name = name.capitalize()
+        sub_path = f"/{name}/{{id}}/notes"
+        sub_item = f"/{name}/{{id}}/notes/{{nid}}"
+        nid_schema = {"type": "integer", "minimum": 1, "maximum": 9999}
+        note_new = {"type": "object", "properties": {"text": {"type": "string", "maxLength": 6}}, "required": ["text"], "additionalProperties": False}
+        note = {"type": "object", "properties": {"id": nid_schema, "text": {"type": "string"}}, "required": ["id", "text"]}
+        idp = {"name": "id", "in": "path", "required": True, "schema": copy.deepcopy(id_schema)}
+        nidp = {"name": "nid", "in": "path", "required": True, "schema": nid_schema}
+        note_resp = {"description": "ok", "content": {"application/json": {"schema": note}}}
+        ops = {
+            "sub_create": ("post", sub_path, [idp], {"201": copy.deepcopy(note_resp), "400": err, "404": err}, note_new),
+            "sub_read": ("get", sub_item, [idp, nidp], {"200": copy.deepcopy(note_resp), "400": err, "404": err}, None),
+            "sub_delete": ("delete", sub_item, [idp, nidp], {"204": {"description": "deleted"}, "400": err, "404": err}, None),
+        }
+        for kind, (method, path, params, responses, body) in ops.items():
+            op: dict[str, Any] = {"operationId": f"{kind}{Name}", "parameters": copy.deepcopy(params), "responses": responses}
+            if body is not None:
+                op["requestBody"] = {"required": True, "content": {"application/json": {"schema": body}}}
+            paths.setdefault(path, {})[method] = op
+            key = f"{method.upper()} {path}"
+            self.ops[key] = RefOp(
+                key=key, method=method.upper(), path=path, collection=name, kind=kind, operation_id=f"{kind}{Name}", tags=[],
+                deprecated=False, params=[RefParam(p["name"], "path", p["schema"], True) for p in params], body_schema=body,
+                responses=list(responses),
+            )
+
+        def link(src_key: str, status: str, lname: str, target_kind: str, params: dict) -> None:
+            m, pth = src_key.split(" ", 1)
+            src = paths[pth][m.lower() if m.lower() in paths[pth] else m]
+            resp = src["responses"].setdefault(status, {"description": "via link"})
+            resp.setdefault("links", {})[lname] = {"operationId": f"{target_kind}{Name}", "parameters": params}
+            tgt = {"sub_create": f"POST {sub_path}", "sub_read": f"GET {sub_item}", "sub_delete": f"DELETE {sub_item}",
+                   "read": f"GET /{name}/{{id}}", "delete": f"DELETE /{name}/{{id}}"}[target_kind]
+            self.ops[src_key].links.append({"from": "?", "to": target_kind, "key": status, "by": "operationId", "params": params, "name": lname, "target": tgt})
+            if status not in self.ops[src_key].responses:
+                self.ops[src_key].responses.append(status)
+
+        create_key = f"{self._mkey(coll, 'create').upper()} /{name}"
+        link(create_key, "201", f"noteFor{Name}", "sub_create", {"id": "$response.body#/id"})
+        sc = f"POST {sub_path}"
+        link(sc, "201", f"readNote{Name}", "sub_read", {"id": "$request.path.id", "nid": "$response.body#/id"})
+        link(sc, "201", f"deleteNote{Name}", "sub_delete", {"id": "$request.path.id", "nid": "$response.body#/id"})
+        if "delete" in coll["kinds"] and "delete" not in coll["no_opid"]:
+            link(sc, "201", f"deleteParentOfNote{Name}", "delete", {"id": "$request.path.id"})
+        if "read" in coll["kinds"] and "read" not in coll["no_opid"]:
+            link(f"DELETE {sub_item}", "204", f"parentAfterNoteDelete{Name}", "read", {"id": "$request.path.id"})
 
     @staticmethod
     def _mkey(coll: dict, kind: str) -> str:
